@@ -377,7 +377,11 @@ static void trx_if_measure_rsp_cb(struct trx_instance *trx, char *resp)
 	int dbm;
 
 	/* Parse freq. and power level */
-	sscanf(resp, "%u %d", &freq10, &dbm);
+	if (sscanf(resp, "%u %d", &freq10, &dbm) != 2) {
+		LOGPFSML(trx->fi, LOGL_ERROR,
+			 "Failed to parse RSP MEASURE: %s\n", resp);
+		return;
+	}
 	freq10 /= 100;
 
 	band_arfcn = gsm_freq102arfcn((uint16_t) freq10, 0);
@@ -525,7 +529,11 @@ static int trx_ctrl_read_cb(struct osmo_fd *ofd, unsigned int what)
 	}
 
 	/* Check for response code */
-	sscanf(p + 1, "%d", &resp);
+	if (p == NULL || sscanf(p + 1, "%d", &resp) != 1) {
+		LOGPFSML(trx->fi, (tcm->critical) ? LOGL_FATAL : LOGL_ERROR,
+			"Response message '%s' has no status code\n", buf);
+		goto rsp_error;
+	}
 	if (resp) {
 		LOGPFSML(trx->fi, (tcm->critical) ? LOGL_FATAL : LOGL_ERROR,
 			"Transceiver rejected TRX command with "
@@ -544,8 +552,15 @@ static int trx_ctrl_read_cb(struct osmo_fd *ofd, unsigned int what)
 		trx->powered_up = false;
 		osmo_fsm_inst_state_chg(trx->fi, TRX_STATE_IDLE, 0, 0);
 	}
-	else if (!strncmp(tcm->cmd + 4, "MEASURE", 7))
-		trx_if_measure_rsp_cb(trx, buf + 14);
+	else if (!strncmp(tcm->cmd + 4, "MEASURE", 7)) {
+		/* "RSP MEASURE <status> <freq> <dbm>": skip the status code */
+		p = strchr(p + 1, ' ');
+		if (p != NULL)
+			trx_if_measure_rsp_cb(trx, p + 1);
+		else
+			LOGPFSML(trx->fi, LOGL_ERROR,
+				 "RSP MEASURE without results: '%s'\n", buf);
+	}
 	else if (!strncmp(tcm->cmd + 4, "ECHO", 4))
 		osmo_fsm_inst_state_chg(trx->fi, TRX_STATE_IDLE, 0, 0);
 	else
